@@ -456,7 +456,7 @@ inline void randomCase(Ctx& c, long idx)
 constexpr long kPairCases = 16 * 61;
 inline long count(Ctx& c)
 {
-    return kPairCases + (c.thorough() ? 800000 : 16000);
+    return kPairCases + (c.thorough() ? 2400000 : 16000);
 }
 inline void run(Ctx& c, long idx)
 {
